@@ -319,6 +319,20 @@ func c18Scens(tier string) []e1Scen {
 			out = append(out, e1Scen{Prop: "C18", Cfg: cfg, Alpha: word, Mode: "fault", Len: 4 * (nrot + cfg.SegCount + 4), FaultAt: fa, Name: fmt.Sprintf("rotation-fault-%d", fa)})
 		}
 	}
+	// ... and the same input fault again and again (every fifth and sixth key frame), Directory and RAM, writer carrying on:
+	// what could not be published does not pile up either
+	for _, variant := range []string{"fmp4", "ll"} {
+		for _, codec := range []string{"av1", "h265"} {
+			for _, disk := range []bool{true, false} {
+				cfg := mcfg(variant, disk, 3, codec)
+				if variant == "ll" {
+					cfg.SegCount = 7
+				}
+				word := []sym{{T: 0, D: "q", K: "R"}, {T: 0, D: "q", K: "n"}, {T: 0, D: "q", K: "n"}, {T: 0, D: "q", K: "n"}}
+				out = append(out, e1Scen{Prop: "C18", Cfg: cfg, Alpha: word, Mode: "paramfault", Len: 4 * 60, FaultAt: 3, Period: 5, Name: "bad-parameter-sets-again-and-again"})
+			}
+		}
+	}
 	// storage fault at the end of a segment (MPEG-TS: the final flush of the finished segment fails), repeated at every
 	// fourth rotation, writer carries on: the segment that could not be completed must not stay in Directory
 	for _, tracks := range [][]string{{"h264"}, {"h264", "aac44"}} {
